@@ -114,7 +114,6 @@ end MDSGen
 
 /-! ### `lagL` and `genEntry` in `GF16` -/
 
-open GF16 in
 theorem lagL_succ (k j x : Nat) :
     lagL (k+1) j x = if k = j then lagL k j x else gmul (lagL k j x) (x ^^^ k) := by
   simp [lagL, List.range_succ, List.foldl_append]
